@@ -19,7 +19,10 @@ LEVEL_TEXT = ("Theorems in coq/Props/C05.v about the executable model coq/Link/L
               "on the storage key. Tied to /repo by running the extracted model on the same random histories "
               "(<=30 ops quick, <=300 thorough) over one LinkSystem and store as the Go harness: CID v0/v1 x 5 codecs x "
               "sha2-256/sha2-512/sha3-256/identity x full/truncated digests, basicnode and bindnode holders, "
-              "re-created values in other insertion orders, memstore and cidlink.Memory, store contents compared.")
+              "re-created values in other insertion orders, memstore and cidlink.Memory, store contents compared; 2/5 of the "
+              "histories run on cidlink.LinkSystemUsingMulticodecRegistry over a PRIVATE registry (standard numbers "
+              "re-bound to other implementations, private numbers, numbers bound for encoding only / decoding only), "
+              "the rest on DefaultLinkSystem.")
 LEVEL_NOTE = ("The hash functions are arbitrary (no law assumed). For dag-cbor the codec laws (round trip, insensitivity to "
               "map entry order) are discharged against coq/Codec/Cbor.v by citing C02's theorems, so "
               "C05_dagcbor_link_fn_perm / C05_dagcbor_store_load have no codec premise; raw likewise. dag-json/json are "
@@ -33,7 +36,8 @@ TRUSTED = ["hash functions: arbitrary Section variables hasher_ok/hash (no law a
            "dag-cbor round-trip / order-insensitivity: C02's theorems (Proofs/CborEnc.v encb_perm_invariant, Proofs/CborDec.v decode_encode) about the hand-written model coq/Codec/Cbor.v of dagcbor + refmt",
            "go-cid / go-multihash / go-varint (Prefix, NewCidV0/V1, Encode, PutUvarint): hand-modelled in coq/Link/LinkSys.v; tied by correspondence only",
            "node implementations (basicnode, bindnode) abstracted to the data-model value they hold; tied by correspondence only"]
-RULE = ("random histories of Store / ComputeLink / Load / LoadRaw / LoadPlusRaw / Fill on one LinkSystem + store; values "
+RULE = ("random histories of Store / ComputeLink / Load / LoadRaw / LoadPlusRaw / Fill on one LinkSystem (global or a "
+        "generated private multicodec registry, described in the record) + store; values "
         "from the structured generator restricted to each codec's domain, re-created with permuted insertion order and "
         "other holders; prototypes over CID v0/v1 x codecs x hashes x digest lengths; fixed corpus of every codec x hash "
         "x length first; distinct = distinct (store kind, trusted, op list); non-trivial = at least 3 operations")
@@ -41,16 +45,17 @@ SEARCH_SEEDS = [1000004, 2000005]
 
 
 def classify(fs):
-    ops = fs[4].split(";")
+    ops = fs[5].split(";")
     kinds = "".join(sorted(set(o[0] for o in ops)))
     n = len(ops)
     b = "1-5" if n <= 5 else "6-15" if n <= 15 else "16-30" if n <= 30 else "31+"
-    return "%s:%s:%s:%s" % (fs[2], "trusted" if fs[3] == "1" else "untrusted", kinds, b)
+    return "%s:%s:%s:%s:%s" % (fs[2], "trusted" if fs[3] == "1" else "untrusted",
+                               "global" if fs[4] == "G" else "private-registry", kinds, b)
 
 
 def nontrivial(fs):
-    return fs[4].count(";") >= 2
+    return fs[5].count(";") >= 2
 
 
 def input_key(fs):
-    return "\t".join(fs[2:5])
+    return "\t".join(fs[2:6])
